@@ -358,7 +358,8 @@ def check_add_param(ctx, rng, vals, replay_extra=None):
     sx = vals.new()
     ex = vals.new()
     nested = rng.random() < 0.4
-    replay = {"kind": "add_param", "d0": d0, "dx": dx, "dy": dy, "set": sx if use_set else None, "explicit": ex if use_exp else None, "nested": nested}
+    replay = {"kind": "add_param", "d0": d0, "dx": dx, "dy": dy, "set": sx if use_set else None, "explicit": ex if use_exp else None, "nested": nested,
+              "implicit_definition": rng.random() < 0.4}
     ctx.case(("add_param", use_set, use_exp, nested, d0, dx), tags=["stream:add_param", f"set:{use_set}", f"explicit:{use_exp}", f"nested:{nested}"])
     return run_add_param(ctx, replay)
 
@@ -372,7 +373,11 @@ def run_add_param(ctx, r):
             m = P("ap", {"A": r["d0"]})
             m.put()
             L.raise_pins()
-            L.add_param("A", lambda x, y: x + y, {"x": r["dx"], "y": r["dy"]})
+            if r.get("implicit_definition"):
+                # the definition defaults are the keyword defaults of the function itself (add_param without a dictionary)
+                L.add_param("A", (lambda dx, dy: (lambda x=dx, y=dy: x + y))(r["dx"], r["dy"]))
+            else:
+                L.add_param("A", lambda x, y: x + y, {"x": r["dx"], "y": r["dy"]})
             if r["set"] is not None:
                 sol.set_param("x", r["set"])
         top = sol
@@ -418,7 +423,11 @@ def run_add_param_sibling(ctx, r):
         with sub:
             P("ap", {"A": r["d0"]}).put()
             L.raise_pins()
-            L.add_param("A", lambda x, y: x + y, {"x": r["dx"], "y": r["dy"]})
+            if r.get("implicit_definition"):
+                # the definition defaults are the keyword defaults of the function itself (add_param without a dictionary)
+                L.add_param("A", (lambda dx, dy: (lambda x=dx, y=dy: x + y))(r["dx"], r["dy"]))
+            else:
+                L.add_param("A", lambda x, y: x + y, {"x": r["dx"], "y": r["dy"]})
         top = L.Solver()
         with top:
             if r["sub_first"]:
